@@ -548,7 +548,7 @@ func (m *monitor) run(line string) string {
 		if got == nil {
 			m.report(m.classifyID("lookup-disagree", k, false, true), fmt.Sprintf("after %s: miner %s has account %s but GetMinerIdByAccount finds none", line, k, hx.Hex(r.account)))
 		} else if gr := o.byID[hx.Hex(got)]; gr == nil || !bytes.Equal(gr.account, r.account) {
-			m.report(m.classifyID("lookup-disagree", k, false, true), fmt.Sprintf("after %s: GetMinerIdByAccount(%s) = %s whose record does not carry that account", line, hx.Hex(r.account), hx.Hex(got)))
+			m.report(m.classifyID("lookup-disagree", hx.Hex(got), false, true), fmt.Sprintf("after %s: GetMinerIdByAccount(%s) = %s whose record does not carry that account", line, hx.Hex(r.account), hx.Hex(got)))
 		}
 		if r.typ == common.MinerTypeProposer && r.status == common.MinerStatusNormal {
 			sum += r.stake
